@@ -410,6 +410,12 @@ def svg_d(ctx):
             ok = ok and other not in body
             els = ast.unparse(top[0].orelse[0]) if top[0].orelse else ""
             ok = ok and els.replace(" ", "") in ("returnself.%s==self.start" % ownfield, "returnself.start==self.%s" % ownfield)
+        loose = [c for c in ast.walk(f) if isinstance(c, ast.Compare) and len(c.ops) == 1 and isinstance(c.ops[0], (ast.Lt, ast.LtE)) and isinstance(c.comparators[0], ast.Constant)
+                 and isinstance(c.comparators[0].value, float) and c.comparators[0].value > 1e-9]
+        ctx.ob("R07.3", "%s.is_smooth_from[reflection decided by point equality]" % cname, not loose, "; ".join(ast.unparse(c)[:60] for c in loose), f.lineno,
+               "the shorthand drops the control point and the reader rebuilds it as the exact reflection: a control point that is merely within a numeric tolerance of the reflection (coarser than the 12 digits coordinates are written with) is lost")
+        if loose:
+            continue
         ctx.ob("R07.3", "%s.is_smooth_from" % cname, ok, detail[:200], f.lineno,
                "shorthand is valid only after a curve of the same class whose last control mirrors this segment's first control; otherwise only when the control coincides with the start")
 
